@@ -276,3 +276,39 @@ ENGINES["disc"] = dict(path="coq/theories/Disc + coq/theories/Corr/DiscCorr.v + 
                        kind="Coq state machine of disc.Member (HandleMessage, the Synchronize loop cut at its atomic steps, intersectedView as "
                             "interleavable Range events) in a global system with Byzantine members; Go harness driving real Members step by "
                             "step, a real Synchronize goroutine under quiescence control, and whole concurrent runs")
+
+# ---------------------------------------------------------------------------------------------- dkg engine (C05, C01)
+from checks import dkg as dkg_engine
+REGISTRY["C05"] = dkg_engine.run
+REGISTRY["C01"] = dkg_engine.run
+DKG_NOTE = ("Trusted: Coq kernel + vm_compute, no axioms (Print Assumptions: closed under the global context). Premises in the "
+            "statements: what reliable broadcast and authenticated links provide (record DKGSystem.Network: deliveries come from "
+            "other session participants, broadcast-class values of an honest party are the ones it sent, any two honest receivers "
+            "of a commitment / key of one sender hold the same value -- proved for the RBC layer in Props/C02.v, C03.v, C04.v), SHA-256 "
+            "as an injective function, curve groups as modules over Z/r generated by g with a bilinear pairing, n < r. The phase-machine "
+            "model of TBLS.KeyGen/TPS.KeyGen + OnMsg is hand-written and tied to the code on every run: every honest party's experienced "
+            "event list (real instances, seeded dealing, scripted deviating participant, seeded scheduler) is replayed in Coq and "
+            "verdict, secret, key exponents, threshold key and broadcast order compared exactly; full-stack runs of the real "
+            "threshold + disc + rbc + msg + mpc/bls over an in-memory FIFO network are judged by C05/C01 monitors.")
+META["C05"] = dict(engine="dkg", note=DKG_NOTE,
+    text="Proved in Coq for arbitrary event lists (any order, duplication, withholding, malformed = oracle-rejected and out-of-phase "
+         "messages, cancellation at any point): an honest party broadcasts its key only in a state holding n-1 commitments and nothing "
+         "after cancellation; an Ok result is the closed form of its own share and the first values received, every commitment matched, "
+         "cross-check accepted; it never reaches a programming-error panic. For n parties with arbitrary Byzantine ones: all honest "
+         "parties that return Ok return identical (tpk, pks); the keys lie on one polynomial of degree < t with tpk = g^p(0) and "
+         "sk_i = p(i) (hence any >= t of them sign under tpk), t = n included; a key off the polynomial or not matching its commitment "
+         "=> no honest Ok. Tie: 16 scripted deviations x victim sets x (n,t) x schedules on real TBLS (TPS: monitors) with exact "
+         "replay on the model; equivocating participant with/without self-acks on the full stack.")
+META["C01"] = dict(engine="dkg", note=DKG_NOTE + " Liveness of orchestrated signing is partial: known findings C01-a (loud: pre-signing "
+                   "query of a slower signer dropped after the peer finished) and C01-b (silent: consequence of C14-a).",
+    text="Proved in Coq: with every party honest, every sent message delivered and no cancellation, in ANY interleaving of deliveries "
+         "and wake-ups (early messages included) every party returns Ok with identical (tpk, pks) = (g^P(0), [g^P(i)]) and sk_i = P(i), "
+         "P the sum of the dealt polynomials, for all 1 <= t <= n (uses C18_crosscheck_honest); for every digest and every list of >= t "
+         "distinct signers the Lagrange aggregate of the partial signatures verifies under tpk. Composition with the session / RBC / Box "
+         "theorems of the other engines is stated in Props/C01.v. Tie: backend-level honest runs under seeded schedulers replayed on the "
+         "model; full-stack LoudScheme and SilentScheme runs n in 2..4 (5 thorough), t in 2..n: KeyGen, then Sign by t-subsets for two "
+         "digests verified with bls.Verifier.")
+ENGINES["dkg"] = dict(path="coq/theories/Alg/{DKG,DKGSystem,DKGAlg}.v + coq/theories/Corr/DKGCorr.v + harness/dkg + checks/dkg.py",
+                      props=["C05", "C01"],
+                      kind="Coq phase machine of KeyGen/OnMsg + n-party system with Byzantine parties + algebraic instance; Go harness "
+                           "driving real TBLS/TPS instances message by message and full LoudScheme/SilentScheme stacks in memory")
